@@ -191,6 +191,9 @@ def listFiles (sd : Side) : Except PyErr (List Entry) :=
 def blockTrack (b : Nat) : Nat := b / 2
 def blockFirstSector (b : Nat) : Nat := (b % 2) * 8
 
+/-- `lastSize if s == lastS else 255` -/
+def pieceLen (sMax lastSize s : Nat) : Nat := if s + 1 = sMax then lastSize else 255
+
 /-- the sector loop of `readFile` for one block: `sMax` sectors, the last one contributing `lastSize` bytes -/
 def readSectors (sd : Side) (b : Nat) (sMax lastSize : Nat) : Nat → Bytes × Nat → Bytes × Nat
   | 0, r => r
@@ -198,7 +201,7 @@ def readSectors (sd : Side) (b : Nat) (sMax lastSize : Nat) : Nat → Bytes × N
     let (res, index) := readSectors sd b sMax lastSize k r
     let s := k
     let sector := getSector sd (blockTrack b) (blockFirstSector b + s)
-    let n := if s + 1 = sMax then lastSize else 255
+    let n := pieceLen sMax lastSize s
     (sliceAssign res index (index + n) (sector.take n), index + n)
 
 /-- `readFile(entry)` of a live entry -/
